@@ -20,11 +20,11 @@ COMPILERS = {
     "plain": ("gcc", "g++", ["-O2", "-g"], []),
     "nohook": ("gcc", "g++", ["-O2", "-g"], []),
     "asan": ("clang", "clang++", ["-O1", "-g", "-fno-omit-frame-pointer", "-fsanitize=address,undefined",
-                                  "-fno-sanitize=float-cast-overflow,float-divide-by-zero",
+                                  "-fno-sanitize=float-cast-overflow,float-divide-by-zero,signed-integer-overflow,shift",
                                   "-fno-sanitize-recover=undefined"],
              ["-fsanitize=address,undefined"]),
     "fuzz": ("clang", "clang++", ["-O1", "-g", "-fno-omit-frame-pointer", "-fsanitize=fuzzer-no-link,address,undefined",
-                                  "-fno-sanitize=float-cast-overflow,float-divide-by-zero",
+                                  "-fno-sanitize=float-cast-overflow,float-divide-by-zero,signed-integer-overflow,shift",
                                   "-fno-sanitize-recover=undefined"],
              ["-fsanitize=fuzzer,address,undefined"]),
     "tsan": ("clang", "clang++", ["-O1", "-g", "-fno-omit-frame-pointer", "-fsanitize=thread"], ["-fsanitize=thread"]),
